@@ -191,7 +191,18 @@ func (s *Session) Broadcast(sender *Participant, protoMsg hwebsocket.ProtoMsg) {
 }
 
 func (s *Session) BroadcastTo(sender *Participant, protoMsg hwebsocket.ProtoMsg, participantIds ...uint32) {
-	participants := s.GetParticipantsByIDs(participantIds...)
+	// Like Broadcast, deliver while holding the participant lock: a participant
+	// that leaves the session in the meantime must not be sent the message
+	// after its departure has completed.
+	s.participantMutex.RLock()
+	defer s.participantMutex.RUnlock()
+
+	participants := make([]*Participant, 0, len(participantIds))
+	for _, id := range participantIds {
+		if p, ok := s.participants[id]; ok {
+			participants = append(participants, p)
+		}
+	}
 	isParticipantHandled := make(map[uint32]struct{}, len(participantIds))
 
 	msg, err := hwebsocket.MsgFromProto(protoMsg)
